@@ -338,6 +338,10 @@ WRAPPER_ENTRIES = [
                "parallel_dict": {"backend": "threading"}}),
 ]
 
+# strategies that work with any SkactivemlClassifier (predict_proba only)
+ANY_CLF = {"UncertaintySampling", "ContrastiveAL", "Clue", "DropQuery",
+           "Falcun", "Badge"}
+
 BY_NAME = {e["name"]: e for e in POOL_ENTRIES}
 WRAP_BY_NAME = {e["name"]: e for e in WRAPPER_ENTRIES}
 
